@@ -2,7 +2,7 @@ import Cactus.Lemmas.Once
 import Cactus.Lemmas.Contract
 import Cactus.Lemmas.Final
 import Cactus.Lemmas.Orphan
-import Cactus.Props.C13   -- only for `runWith` (`run` with an explicit step budget)
+import Cactus.Lemmas.Shared.RunWith   -- `runWith` (`run` with an explicit step budget)
 /-!
 # C01 — no premature destruction
 
@@ -18,8 +18,8 @@ What is proved here, in this order:
   and at a state three steps into a group teardown.
 Not proved: anything about histories that break the contract — the property is false there (known
 finding D4, machine-checked counterexample in `Props/C13.lean`).
-`Cactus.Props.C13` is imported only for `runWith` (`run` with an explicit step budget), which the
-evaluation examples use.
+`runWith` (`run` with an explicit step budget), which the evaluation examples use, comes from
+`Cactus.Lemmas.Shared.RunWith`; no other property file is imported.
 -/
 namespace Cactus
 open State
